@@ -307,6 +307,10 @@ def main(root, argv):
         report.append((text, True))
     elif without:
         report.append(('\n\n'.join(v[0] for v in without), False))
+    if not report:
+        stale = '%s/replays/%s.%s.%d.txt' % (root, prop, tier, seed)
+        if os.path.exists(stale):
+            os.remove(stale)   # a replay file exists only for a violation reported by this run
     for i, (text, has_input) in enumerate(report):
         path = '%s/replays/%s.%s.%d.txt' % (root, prop, tier, seed)
         with open(path, 'w') as f:
